@@ -9,4 +9,4 @@ require (
 	google.golang.org/protobuf v1.26.0 // indirect
 )
 
-replace git.sr.ht/~adrian-blx/psa-dhcp => /tmp/repo-c1807
+replace git.sr.ht/~adrian-blx/psa-dhcp => /repo
